@@ -323,12 +323,21 @@ func (g *jsgen) stmt(c *jctx, depth int, ind string) string {
 			return fmt.Sprintf("%s%s %s = %s;\n", ind, g.r.Pick([]string{"let", "const"}), n, g.newID())
 		case 2: // var (possibly inside extra blocks: hoisting through blocks)
 			n := g.capOrName()
+			if g.jsx && !c.sc.isFunc && n[0] >= 'A' && n[0] <= 'Z' {
+				continue // a JSX tag name declared by var inside a block and merged into a parameter/var: recorded finding
+			}
+			if c.inWith {
+				// a var in a with body whose name the function also declares elsewhere can lose its
+				// pin (recorded finding, residue of bc60627): inside with only fresh names
+				g.sib++
+				n = fmt.Sprintf("wv%d", g.sib+100)
+			}
 			if !c.sc.canVar(n) {
 				continue
 			}
 			c.sc.addVar(n)
 			g.features["var"]++
-			if g.r.Chance(30) {
+			if g.r.Chance(30) && !(g.jsx && n[0] >= 'A' && n[0] <= 'Z') {
 				g.features["var-hoisted-through-block"]++
 				return fmt.Sprintf("%s{ { var %s = %s; } }\n", ind, n, g.newID())
 			}
@@ -416,6 +425,9 @@ func (g *jsgen) stmt(c *jctx, depth int, ind string) string {
 			g.features["for"]++
 			fs := newScope(c.sc, false)
 			kind := g.r.Intn(3)
+			if kind == 2 && (c.inWith || (g.jsx && n[0] >= 'A' && n[0] <= 'Z')) {
+				kind = 1 // (see the var case)
+			}
 			if kind == 2 {
 				if !c.sc.canVar(n) {
 					continue
